@@ -52,12 +52,12 @@ MODELS = {
 
 # property -> list of (model, invariants, extra constants)
 PLAN = {
-    "C01": [("Query", ["Inv_C01"], {}), ("Incr", ["Inv_C01"], {})],
-    "C02": [("Query", ["Inv_C02"], {}), ("Incr", ["Inv_C02"], {})],
-    "C03": [("Query", ["Inv_C03"], {}), ("Incr", ["Inv_C03"], {})],
-    "C06": [("Query", ["Inv_C06"], {}), ("Incr", ["Inv_C06"], {})],
-    "C07": [("Query", ["Inv_C07"], {}), ("Incr", ["Inv_C07"], {})],
-    "C08": [("Query", ["Inv_C08", "Inv_C08pair"], {}), ("Incr", ["Inv_C08"], {})],
+    "C01": [("Query", ["Inv_C01"], {}), ("Incr", ["Inv_C01"], {"MaxOps": 2})],
+    "C02": [("Query", ["Inv_C02"], {}), ("Incr", ["Inv_C02"], {"MaxOps": 2})],
+    "C03": [("Query", ["Inv_C03"], {}), ("Incr", ["Inv_C03"], {"MaxOps": 2})],
+    "C06": [("Query", ["Inv_C06"], {}), ("Incr", ["Inv_C06"], {"MaxOps": 2})],
+    "C07": [("Query", ["Inv_C07"], {}), ("Incr", ["Inv_C07"], {"MaxOps": 2})],
+    "C08": [("Query", ["Inv_C08", "Inv_C08pair"], {}), ("Incr", ["Inv_C08"], {"MaxOps": 2})],
     "C04": [("Build", ["Inv_C04", "Inv_C04load"], {})],
     "C13": [("Build", ["Inv_C13"], {})],
     "C05": [("Incr", [], {})],
